@@ -324,6 +324,105 @@ def check_C16(prop, tier, seed):
                                   "additionally measured on a shared case list", "the configuration header comes from the repository's own configure --enable-openmp"])
 
 
+# ------------------------------------------------------------------------------------------------ C18
+def py_png(w, h, depth=1, ctype=0, rows=None):
+    import zlib, struct
+
+    def chunk(t, d):
+        return struct.pack(">I", len(d)) + t + d + struct.pack(">I", zlib.crc32(t + d) & 0xffffffff)
+    rowbytes = (w * depth * {0: 1, 2: 3, 3: 1, 4: 2, 6: 4}[ctype] + 7) // 8
+    raw = b"".join(b"\0" + bytes((i * 37 + j * 11 + w) & 0xff for j in range(rowbytes)) for i in range(h))
+    out = b"\x89PNG\r\n\x1a\n" + chunk(b"IHDR", struct.pack(">IIBBBBB", w, h, depth, ctype, 0, 0, 0))
+    if ctype == 3:
+        out += chunk(b"PLTE", bytes(range(6)))
+    return out + chunk(b"IDAT", zlib.compress(raw)) + chunk(b"IEND", b"")
+
+
+def fuzz_campaign(prop, tier, seed, rundir, seconds, workers):
+    """libFuzzer campaign on mzd_from_png / mzd_from_jcf (two corpora: empty and grammar seeds).
+    Returns (stats dict, list of confirmed crash artifacts)."""
+    fz = vbuild.build_fuzzer("fz_io", "small-fuzz")
+    stats = dict(execs=0, abort=0, null=0, matrix=0, checked_against_reference=0, campaigns=[])
+    confirmed = []
+    for cname in ("empty", "grammar"):
+        cdir = os.path.join(rundir, "corpus-" + cname)
+        adir = os.path.join(rundir, "artifacts-" + cname)
+        os.makedirs(cdir, exist_ok=True)
+        os.makedirs(adir, exist_ok=True)
+        if cname == "grammar":
+            k = 0
+            for (w, h, d, ct) in [(70, 5, 1, 0), (8, 2, 1, 0), (64, 3, 1, 0), (33, 2, 8, 0), (10, 2, 2, 3), (9, 2, 8, 2), (5, 5, 16, 0)]:
+                open(os.path.join(cdir, "p%d" % k), "wb").write(b"\x01" + py_png(w, h, d, ct))
+                k += 1
+            open(os.path.join(cdir, "j0"), "wb").write(b"\x00" + b"3 2 2\n3\n\n-2\n-1\n-2\n")
+            open(os.path.join(cdir, "j1"), "wb").write(b"\x00" + b"2 70 2\n4\n\n-1\n70\n-64\n65\n")
+        env = dict(os.environ)
+        env["ASAN_OPTIONS"] = "detect_leaks=0:allocator_may_return_null=1"
+        env["UBSAN_OPTIONS"] = "print_stacktrace=1"
+        env["VF_TMP"] = rundir
+        procs = []
+        for wk in range(workers):
+            e = dict(env)
+            e["VF_FZ_STATS"] = os.path.join(rundir, "fzstats-%s-%d.json" % (cname, wk))
+            cmd = [fz, "-max_total_time=%d" % seconds, "-max_len=4096", "-timeout=20", "-rss_limit_mb=3000",
+                   "-artifact_prefix=" + adir + "/", "-seed=%d" % (vc.seed_for(seed, prop, cname, wk)), "-print_final_stats=1", cdir]
+            procs.append(subprocess.Popen(cmd, stdout=subprocess.DEVNULL, stderr=open(os.path.join(rundir, "fz-%s-%d.log" % (cname, wk)), "w"), env=e))
+        for pr in procs:
+            pr.wait()
+        for wk in range(workers):
+            f = os.path.join(rundir, "fzstats-%s-%d.json" % (cname, wk))
+            if os.path.exists(f):
+                try:
+                    d = json.load(open(f))
+                    for k2 in ("execs", "abort", "null", "matrix", "checked_against_reference"):
+                        stats[k2] += d.get(k2, 0)
+                except Exception:
+                    pass
+        arts = [a for a in sorted(glob.glob(os.path.join(adir, "crash-*")) + glob.glob(os.path.join(adir, "leak-*")))]
+        stats["campaigns"].append(dict(corpus=cname, workers=workers, seconds=seconds, artifacts=len(arts),
+                                       corpus_files=len(os.listdir(cdir))))
+        for a in arts[:6]:
+            hits = 0
+            for _ in range(3):
+                r = subprocess.run([fz, a], stdout=subprocess.PIPE, stderr=subprocess.PIPE, env=env)
+                if r.returncode != 0:
+                    hits += 1
+            if hits >= 2:
+                os.makedirs(vc.FOUND, exist_ok=True)
+                dst = os.path.join(vc.FOUND, "C18-fuzz-" + os.path.basename(a)[-16:] + ".bin")
+                shutil.copy(a, dst)
+                confirmed.append(dst)
+    return stats, confirmed
+
+
+def check_C18(prop, tier, seed):
+    t0 = time.time()
+    plan = vc.PLANS[prop][tier]
+    binaries = vbuild.build(plan["cfgs"])
+    reg = vc.regression_tier(prop, binaries, plan["cfgs"][0], strict=True)
+    # saved fuzzer inputs of earlier findings are part of the regression tier
+    merged = vc.generic_check(prop, tier, seed, plan, binaries, strict=True)
+    rundir = os.path.join(vc.RUN, "C18-%s-fuzz" % tier)
+    shutil.rmtree(rundir, ignore_errors=True)
+    os.makedirs(rundir)
+    stats, confirmed = fuzz_campaign(prop, tier, seed, rundir, 20 if tier == "quick" else 600, 4 if tier == "quick" else 8)
+    merged["evaluations"] += stats["execs"]
+    merged["labels"]["fuzz:executions"] = stats["execs"]
+    merged["labels"]["fuzz:fate-abort"] = stats["abort"]
+    merged["labels"]["fuzz:fate-NULL"] = stats["null"]
+    merged["labels"]["fuzz:fate-matrix"] = stats["matrix"]
+    merged["labels"]["fuzz:matrix-compared-with-reference-decoder"] = stats["checked_against_reference"]
+    reg["violations"].extend((p, "libFuzzer artifact reproduces") for p in confirmed)
+    rule = subprocess.run([binaries[plan["cfgs"][0]], "rule", prop], stdout=subprocess.PIPE).stdout.decode().strip()
+    rule += " | libFuzzer slice (coverage-guided, byte level, first byte selects PNG/JCF; abort() interposed so that allowed aborts " \
+            "unwind to the fuzz loop; oracle inside the target: no sanitizer report, non-negative dimensions, zero padding, equality " \
+            "with the reference decoder for valid 1-bit grayscale files); only crash-/leak- artifacts that reproduce 2 of 3 times count"
+    return vc.finish(prop, tier, seed, "exploration", merged, reg, rule, t0, extra_cov=dict(fuzz_campaigns=stats["campaigns"]), strict=True,
+                     assumptions=["libpng internals are not judged; abort() through libpng's default error path or m4ri_die is an accepted rejection",
+                                  "generated headers keep image dimensions <= 20000 (fuzzer: <= 4096) so that 'file asks for a huge matrix' stays cheap",
+                                  "the libFuzzer slice is pinned only approximately by -seed; a saved artifact is the reproducible unit"])
+
+
 C15_VARIANTS = {"r-ts-tsan": ["--with-cachesize=" + SMALL, "--enable-thread-safe"],
                 "r-ts-asan": ["--with-cachesize=" + SMALL, "--enable-thread-safe"],
                 "r-ts-nosse-tsan": ["--with-cachesize=" + SMALL, "--enable-thread-safe", "--disable-sse2"]}
@@ -353,4 +452,4 @@ def ensure_cfg(name):
     return headers, env
 
 
-SPECIAL = {"C12": check_C12, "C15": check_C15, "C16": check_C16}
+SPECIAL = {"C12": check_C12, "C15": check_C15, "C16": check_C16, "C18": check_C18}
